@@ -63,6 +63,8 @@ def chk_ref(case, note):
     r3 = (int(round(e["rlat"])), int(round(cg.wrap_lon(e["rlon"]))))
     if r3[1] == 180:
         r3 = (r3[0], -180)
+    import numpy as np
+    r4 = (np.float64(r2[0]), np.float64(r2[1]))  # a reference read from a numpy array
     dstep = e["dlon_step"] * (1 if not surface else 1)  # surface: 19-bit bins of a 360/ni zone == 17-bit bins of 90/ni
     for name, fn in fns:
         outs = []
@@ -70,7 +72,7 @@ def chk_ref(case, note):
             base = 90.0 if surface else 360.0
             far = max(-90.0, min(90.0, r1[0] + (3 if r1[0] < 0 else -3) * base / (60 - i)))
             call(fn, msg, far, cg.wrap_lon(r1[1] + 40.0))
-        for (rl, ro) in (r1, r2, r3):
+        for (rl, ro) in (r1, r2, r3, r4):
             r = call(fn, msg, rl, ro)
             tag = "%s(%s, %r, %r)" % (name, msg, rl, ro)
             if r[0] != "ok":
